@@ -444,6 +444,11 @@ func execHist(sp *spec, res *engine.Result) {
 			alt = b
 		case 'L':
 			ref.limit, _ = strconv.Atoi(op[1:])
+			// S2: the statement does not say when a lowered limit takes effect; trimming to the most recent
+			// `limit` forms at once is accepted as well as waiting for the next Add.
+			if 0 < ref.limit && ref.limit < len(ref.forms) {
+				alt = append([]string{}, ref.forms[len(ref.forms)-ref.limit:]...)
+			}
 		}
 		return
 	}
@@ -531,6 +536,7 @@ func execHist(sp *spec, res *engine.Result) {
 				fmt.Sprintf("%s: after op %d %s from %s: in memory %s, reference %s (or %s)", sp, i, op, show(pre), show(mem), show(ref.forms), show(alt)))
 			return // S3: what follows would only re-report this
 		}
+		ref.forms = append([]string{}, mem...) // S3: continue from the observed state
 		if op[0] == 'A' && !eqs(mem, pre) && ref.limit+ref.limit/10 < len(mem) && 0 < ref.limit { // an Add that added must respect the bound
 			res.Fail("hist bound-exceeded", fmt.Sprintf("%s: %d forms in memory, limit %d", sp, len(mem), ref.limit))
 		}
